@@ -1,2 +1,506 @@
-From LLF Require Import Base Row.
-(* placeholder: filled in by the C23 proof *)
+(* C23: the bit-trick model `fza` of `first_zeros_aligned` (bitfield.rs:286) equals the obvious
+   search `row_spec`, for every 64-bit row and every order 0..6, plus the characterisation
+   lemmas of the result used by the bitfield proofs. Generic bit lemmas are in BitLemmas.v. *)
+From Coq Require Import PeanoNat.
+From LLF Require Import Base Row BitLemmas.
+Local Open Scope N_scope.
+
+(* ---------- block masks and block_free ---------- *)
+Lemma testbit_block_mask o p i :
+  N.testbit (block_mask o p) i = (p <=? i) && (i <? p + 2 ^ N.of_nat o).
+Proof.
+  unfold block_mask, ones. set (n := 2 ^ N.of_nat o).
+  destruct (N.leb_spec p i) as [H|H].
+  - rewrite N.shiftl_spec_high' by assumption.
+    destruct (N.ltb_spec i (p + n)).
+    + rewrite N.ones_spec_low by lia. reflexivity.
+    + rewrite N.ones_spec_high by lia. reflexivity.
+  - rewrite N.shiftl_spec_low by assumption. reflexivity.
+Qed.
+
+Lemma block_free_spec : forall v o p, block_free v o p = true <->
+  (forall i, p <= i < p + 2 ^ N.of_nat o -> N.testbit v i = false).
+Proof.
+  intros v o p. unfold block_free. rewrite N.eqb_eq. split.
+  - intros H i Hi.
+    assert (T : N.testbit (N.land v (block_mask o p)) i = false) by (rewrite H; apply N.bits_0).
+    rewrite N.land_spec, testbit_block_mask in T.
+    destruct (N.leb_spec p i); [|lia]. destruct (N.ltb_spec i (p + 2 ^ N.of_nat o)); [|lia].
+    rewrite andb_true_r in T. exact T.
+  - intros H. apply N.bits_inj. intros i. rewrite N.bits_0, N.land_spec, testbit_block_mask.
+    destruct (N.leb_spec p i); [|apply andb_false_r].
+    destruct (N.ltb_spec i (p + 2 ^ N.of_nat o)); [|apply andb_false_r].
+    rewrite H by lia. reflexivity.
+Qed.
+
+Lemma block_free_lane v o p :
+  block_free v o p = ((v / 2 ^ p) mod 2 ^ (2 ^ N.of_nat o) =? 0).
+Proof.
+  unfold block_free, block_mask, ones. rewrite land_shiftl_ones.
+  destruct (N.eqb_spec ((v / 2 ^ p) mod 2 ^ (2 ^ N.of_nat o)) 0) as [E|E].
+  - rewrite E, N.shiftl_0_l. reflexivity.
+  - apply N.eqb_neq. intros H. apply E. apply N.shiftl_eq_0_iff in H. exact H.
+Qed.
+
+Lemma block_free_0 v p : block_free v 0%nat p = negb (N.testbit v p).
+Proof.
+  destruct (block_free v 0%nat p) eqn:E.
+  - rewrite (proj1 (block_free_spec v 0%nat p) E p); [reflexivity|].
+    change (2 ^ N.of_nat 0) with 1. lia.
+  - destruct (N.testbit v p) eqn:T; [reflexivity|]. exfalso.
+    assert (F : block_free v 0%nat p = true).
+    { apply block_free_spec. intros i Hi. change (2 ^ N.of_nat 0) with 1 in Hi.
+      replace i with p by lia. exact T. }
+    congruence.
+Qed.
+
+Lemma block_free_1 v p :
+  block_free v 1%nat p = negb (N.testbit v p) && negb (N.testbit v (p + 1)).
+Proof.
+  destruct (block_free v 1%nat p) eqn:E.
+  - pose proof (proj1 (block_free_spec v 1%nat p) E) as H.
+    change (2 ^ N.of_nat 1) with 2 in H.
+    rewrite (H p), (H (p + 1)) by lia. reflexivity.
+  - destruct (N.testbit v p) eqn:T; [reflexivity|].
+    destruct (N.testbit v (p + 1)) eqn:T1; [reflexivity|]. exfalso.
+    assert (F : block_free v 1%nat p = true).
+    { apply block_free_spec. intros i Hi. change (2 ^ N.of_nat 1) with 2 in Hi.
+      destruct (N.eq_dec i p) as [->|Hn]; [exact T|].
+      replace i with (p + 1) by lia. exact T1. }
+    congruence.
+Qed.
+
+(* ---------- the specification's search ---------- *)
+Lemma pow2_order o : (o <= 6)%nat -> N.of_nat (Nat.pow 2 (6 - o)) * 2 ^ N.of_nat o = 64.
+Proof. intros H. do 7 (destruct o as [|o]; [reflexivity|]). lia. Qed.
+
+Lemma find_map_seq_some {A} (f : A -> bool) (g : nat -> A) n : forall a x,
+  find f (map g (seq a n)) = Some x ->
+  exists k, (a <= k < a + n)%nat /\ x = g k /\ f (g k) = true /\
+            forall j, (a <= j < k)%nat -> f (g j) = false.
+Proof.
+  induction n as [|n IH]; cbn [seq map find]; intros a x H; [discriminate|].
+  destruct (f (g a)) eqn:E.
+  - injection H as <-. exists a. repeat split; try lia. exact E.
+  - apply IH in H. destruct H as (k & Hk & Hx & Hf & Hl).
+    exists k. repeat split; try lia; try assumption.
+    intros j Hj. destruct (Nat.eq_dec j a) as [->|Hn]; [exact E|]. apply Hl. lia.
+Qed.
+
+Lemma row_spec_some : forall v o v' p, (o <= 6)%nat -> row_spec v o = Some (v', p) ->
+  p mod 2 ^ N.of_nat o = 0 /\ p + 2 ^ N.of_nat o <= 64 /\ block_free v o p = true /\
+  v' = N.lor v (block_mask o p) /\
+  (forall q, q mod 2 ^ N.of_nat o = 0 -> q < p -> block_free v o q = false).
+Proof.
+  intros v o v' p Ho H. unfold row_spec in H.
+  destruct (find (block_free v o) (candidates o)) as [x|] eqn:E; [|discriminate].
+  injection H as <- <-. unfold candidates in E.
+  apply find_map_seq_some in E. destruct E as (k & Hk & -> & Hf & Hl).
+  pose proof (pow2_order o Ho) as G.
+  set (B := 2 ^ N.of_nat o) in *.
+  assert (HB : B <> 0) by (apply N.pow_nonzero; discriminate).
+  repeat split.
+  - apply N.mod_mul. exact HB.
+  - rewrite <- G. replace (N.of_nat k * B + B) with ((N.of_nat k + 1) * B) by ring.
+    apply N.mul_le_mono_r. lia.
+  - exact Hf.
+  - intros q Hq Hlt.
+    pose proof (N.div_mod q B HB) as Eq. rewrite Hq, N.add_0_r in Eq.
+    assert (Hd : q / B < N.of_nat k).
+    { apply N.div_lt_upper_bound; [exact HB|]. rewrite N.mul_comm. exact Hlt. }
+    specialize (Hl (N.to_nat (q / B))). rewrite N2Nat.id, N.mul_comm, <- Eq in Hl.
+    apply Hl. lia.
+Qed.
+
+Lemma row_spec_none : forall v o, (o <= 6)%nat -> row_spec v o = None ->
+  forall q, q mod 2 ^ N.of_nat o = 0 -> q + 2 ^ N.of_nat o <= 64 -> block_free v o q = false.
+Proof.
+  intros v o Ho H q Hq Hle. unfold row_spec in H.
+  destruct (find (block_free v o) (candidates o)) as [x|] eqn:E; [discriminate|].
+  apply (find_none _ _ E). unfold candidates.
+  pose proof (pow2_order o Ho) as G.
+  set (B := 2 ^ N.of_nat o) in *.
+  assert (HB : B <> 0) by (apply N.pow_nonzero; discriminate).
+  pose proof (N.div_mod q B HB) as Eq. rewrite Hq, N.add_0_r in Eq.
+  apply in_map_iff. exists (N.to_nat (q / B)). split.
+  - rewrite N2Nat.id, N.mul_comm. symmetry. exact Eq.
+  - apply in_seq. split; [lia|].
+    assert (Hd : q / B < N.of_nat (Nat.pow 2 (6 - o))).
+    { apply N.div_lt_upper_bound; [exact HB|]. rewrite N.mul_comm, G. lia. }
+    lia.
+Qed.
+
+(* ---------- order 0 ---------- *)
+Lemma fza_correct_0 v : v < W64 -> fza v 0 = row_spec v 0.
+Proof.
+  intros Hv. unfold fza. cbv zeta.
+  destruct (row_spec v 0) as [[v' p]|] eqn:E.
+  - destruct (row_spec_some _ _ _ _ (Nat.le_0_l 6) E) as (_ & Hb & Hf & -> & Hl).
+    change (2 ^ N.of_nat 0) with 1 in *.
+    assert (Et : trailing_ones v = p).
+    { apply trailing_ones_unique.
+      - intros i Hi. specialize (Hl i (N.mod_1_r i) Hi). rewrite block_free_0 in Hl.
+        destruct (N.testbit v i); [reflexivity|discriminate].
+      - rewrite block_free_0 in Hf. destruct (N.testbit v p); [discriminate|reflexivity]. }
+    rewrite Et. destruct (N.ltb_spec p 64); [reflexivity|lia].
+  - pose proof (row_spec_none _ _ (Nat.le_0_l 6) E) as Hn.
+    change (2 ^ N.of_nat 0) with 1 in *.
+    assert (Hge : 64 <= trailing_ones v).
+    { apply trailing_ones_ge. intros i Hi.
+      specialize (Hn i (N.mod_1_r i)). rewrite block_free_0 in Hn.
+      destruct (N.testbit v i); [reflexivity|]. discriminate Hn. lia. }
+    destruct (N.ltb_spec (trailing_ones v) 64); [lia|reflexivity].
+Qed.
+
+(* ---------- order 1 ---------- *)
+Lemma check_below_bool n (f g : N -> bool) :
+  forall_below n (fun i => Bool.eqb (f i) (g i)) = true ->
+  forall i, i < N.of_nat n -> f i = g i.
+Proof. intros H i Hi. apply eqb_prop. apply (forall_below_spec n _ H i Hi). Qed.
+
+Lemma check_below_N n (f g : N -> N) :
+  forall_below n (fun i => f i =? g i) = true ->
+  forall i, i < N.of_nat n -> f i = g i.
+Proof. intros H i Hi. apply N.eqb_eq. apply (forall_below_spec n _ H i Hi). Qed.
+
+Lemma mask1_bit i : N.testbit 0xaaaaaaaaaaaaaaaa i = (i <? 64) && (i mod 2 =? 1).
+Proof.
+  destruct (N.ltb_spec i 64) as [H|H].
+  - apply (check_below_bool 64 (N.testbit 0xaaaaaaaaaaaaaaaa) (fun i => i mod 2 =? 1));
+      [vm_compute; reflexivity|exact H].
+  - apply (testbit_high _ 64); [reflexivity|exact H].
+Qed.
+
+Lemma pair_bit v i :
+  N.testbit (N.lor (N.lor v (N.shiftr v 1)) 0xaaaaaaaaaaaaaaaa) i =
+  N.testbit v i || N.testbit v (i + 1) || ((i <? 64) && (i mod 2 =? 1)).
+Proof. rewrite !N.lor_spec, N.shiftr_spec', mask1_bit. reflexivity. Qed.
+
+Lemma mod2_cases i : i mod 2 = 0 \/ i mod 2 = 1.
+Proof.
+  assert (H : i mod 2 < 2) by (apply N.mod_lt; discriminate).
+  set (x := i mod 2) in *. clearbody x. lia.
+Qed.
+
+Lemma fza_correct_1 v : v < W64 -> fza v 1 = row_spec v 1.
+Proof.
+  intros Hv. unfold fza. cbv zeta.
+  assert (Ho : (1 <= 6)%nat) by lia.
+  destruct (row_spec v 1) as [[v' p]|] eqn:E.
+  - destruct (row_spec_some _ _ _ _ Ho E) as (Ha & Hb & Hf & -> & Hl).
+    change (2 ^ N.of_nat 1) with 2 in *.
+    match goal with |- context [trailing_ones ?Y] => assert (Et : trailing_ones Y = p) end.
+    { apply trailing_ones_unique.
+      - intros i Hi. rewrite pair_bit.
+        destruct (mod2_cases i) as [Hm|Hm].
+        + specialize (Hl i Hm Hi). rewrite block_free_1 in Hl.
+          destruct (N.testbit v i); [reflexivity|].
+          destruct (N.testbit v (i + 1)); [reflexivity|discriminate].
+        + rewrite Hm. destruct (N.ltb_spec i 64); [|lia]. apply orb_true_r.
+      - rewrite pair_bit, Ha. rewrite block_free_1 in Hf.
+        destruct (N.testbit v p); [discriminate|].
+        destruct (N.testbit v (p + 1)); [discriminate|]. apply andb_false_r. }
+    rewrite Et. destruct (N.ltb_spec p 64); [reflexivity|lia].
+  - pose proof (row_spec_none _ _ Ho E) as Hn.
+    change (2 ^ N.of_nat 1) with 2 in *.
+    match goal with |- context [trailing_ones ?Y] => assert (Hge : 64 <= trailing_ones Y) end.
+    { apply trailing_ones_ge. intros i Hi. rewrite pair_bit.
+      destruct (mod2_cases i) as [Hm|Hm].
+      + specialize (Hn i Hm). rewrite block_free_1 in Hn.
+        destruct (N.testbit v i); [reflexivity|].
+        destruct (N.testbit v (i + 1)); [reflexivity|]. discriminate Hn.
+        assert (i <> 63) by (intros ->; discriminate Hm). lia.
+      + rewrite Hm. destruct (N.ltb_spec i 64); [|lia]. apply orb_true_r. }
+    match goal with |- context [trailing_ones ?Y] =>
+      destruct (N.ltb_spec (trailing_ones Y) 64); [lia|reflexivity] end.
+Qed.
+
+(* ---------- orders 2, 3, 4: the zero-lane trick ---------- *)
+Section ZeroLane.
+  Variables (w n mask : N) (o : nat).
+  Hypothesis Hw : 0 < w.
+  Hypothesis Hwn : w * n = 64.
+  Hypothesis Hwo : 2 ^ N.of_nat o = w.
+  Hypothesis Ho : (o <= 6)%nat.
+  Hypothesis Hmask_lt : mask < W64.
+  Hypothesis Hmask_bit : forall i, i < 64 -> N.testbit mask i = (i mod w =? 0).
+  Hypothesis Hmask_lane : forall j, j < n -> lane w mask j = 1.
+  Variable v : N.
+  Hypothesis Hv : v < W64.
+
+  Let X := wsub64 v mask.
+  Let R := N.land (N.shiftr (N.land X (not64 v)) (w - 1)) mask.
+
+  Lemma zl_pos j : j < n -> w * j + w <= 64.
+  Proof.
+    intros Hj. rewrite <- Hwn. replace (w * j + w) with (w * (j + 1)) by ring.
+    apply N.mul_le_mono_l. lia.
+  Qed.
+
+  Lemma zl_idx i : i < 64 -> i / w < n.
+  Proof.
+    intros Hi. apply N.div_lt_upper_bound; [lia|]. rewrite Hwn. exact Hi.
+  Qed.
+
+  (* no borrow out of the low j lanes when they are all non-zero *)
+  Lemma zl_low_ge j : j <= n -> (forall j', j' < j -> lane w v j' <> 0) ->
+    mask mod 2 ^ (w * j) <= v mod 2 ^ (w * j).
+  Proof.
+    induction j as [|j IH] using N.peano_ind; intros Hj Hnz.
+    - rewrite N.mul_0_r. change (2 ^ 0) with 1. rewrite !N.mod_1_r. lia.
+    - rewrite <- N.add_1_r, !mod_pow2_split.
+      rewrite Hmask_lane by lia.
+      assert (IH' : mask mod 2 ^ (w * j) <= v mod 2 ^ (w * j)).
+      { apply IH; [lia|]. intros j' Hj'. apply Hnz. lia. }
+      assert (Ha : lane w v j <> 0) by (apply Hnz; lia).
+      assert (2 ^ (w * j) * 1 <= 2 ^ (w * j) * lane w v j) by (apply N.mul_le_mono_l; lia).
+      lia.
+  Qed.
+
+  Lemma zl_lane_X j : j < n -> (forall j', j' < j -> lane w v j' <> 0) ->
+    lane w X j = (lane w v j + 2 ^ w - 1) mod 2 ^ w.
+  Proof.
+    intros Hj Hnz.
+    assert (E64 : W64 = 2 ^ (w * j) * 2 ^ w * 2 ^ (w * (n - j - 1))).
+    { rewrite <- !N.pow_add_r. change W64 with (2 ^ 64). f_equal. rewrite <- Hwn.
+      replace n with (j + 1 + (n - j - 1)) at 1 by lia. ring. }
+    pose proof Hv as Hv'. pose proof Hmask_lt as Hm'. rewrite E64 in Hv', Hm'.
+    unfold lane, X, wsub64. rewrite E64.
+    apply wsub_lane_gen; try (apply N.pow_nonzero; discriminate); try assumption.
+    - apply zl_low_ge; [lia|exact Hnz].
+    - apply Hmask_lane. exact Hj.
+  Qed.
+
+  Lemma zl_R_bit i :
+    N.testbit R i =
+    N.testbit X (i + (w - 1)) && N.testbit (not64 v) (i + (w - 1)) && N.testbit mask i.
+  Proof. unfold R. rewrite N.land_spec, N.shiftr_spec', N.land_spec. reflexivity. Qed.
+
+  Lemma zl_R_marker j : j < n -> (forall j', j' < j -> lane w v j' <> 0) ->
+    N.testbit R (w * j) = (lane w v j =? 0).
+  Proof.
+    intros Hj Hnz. pose proof (zl_pos j Hj) as Hp.
+    rewrite zl_R_bit, Hmask_bit by lia.
+    rewrite (N.mul_comm w j), N.mod_mul by lia. rewrite (N.mul_comm j w).
+    change (0 =? 0) with true. rewrite andb_true_r.
+    rewrite not64_spec. destruct (N.ltb_spec (w * j + (w - 1)) 64); [|lia].
+    rewrite <- !(lane_testbit w _ j (w - 1)) by lia.
+    rewrite zl_lane_X by assumption.
+    pose proof (lane_lt w v j) as Ha. set (a := lane w v j) in *.
+    assert (HQ : 2 ^ w <> 0) by (apply N.pow_nonzero; discriminate).
+    destruct (N.eqb_spec a 0) as [Ea|Ea].
+    - rewrite Ea, N.add_0_l, N.mod_small by lia.
+      rewrite N.sub_1_r, <- N.ones_equiv, N.ones_spec_low by lia.
+      rewrite N.bits_0. reflexivity.
+    - assert (Ea1 : (a + 2 ^ w - 1) mod 2 ^ w = a - 1).
+      { replace (a + 2 ^ w - 1) with (a - 1 + 1 * 2 ^ w) by lia.
+        rewrite N.mod_add by assumption. apply N.mod_small. lia. }
+      rewrite Ea1, !testbit_top by lia.
+      destruct (N.leb_spec (2 ^ (w - 1)) (a - 1)); [|reflexivity].
+      destruct (N.leb_spec (2 ^ (w - 1)) a); [reflexivity|lia].
+  Qed.
+
+  Lemma zl_R_other i : i mod w <> 0 \/ 64 <= i -> N.testbit R i = false.
+  Proof.
+    intros H. rewrite zl_R_bit.
+    assert (Hm : N.testbit mask i = false).
+    { destruct (N.lt_ge_cases i 64) as [Hi|Hi].
+      - rewrite Hmask_bit by assumption. apply N.eqb_neq. destruct H; [assumption|lia].
+      - apply (testbit_high _ 64); assumption. }
+    rewrite Hm. apply andb_false_r.
+  Qed.
+
+  Lemma zl_aligned i : i mod w = 0 -> i = w * (i / w).
+  Proof.
+    intros H. pose proof (N.div_mod i w) as E. rewrite H, N.add_0_r in E. apply E. lia.
+  Qed.
+
+  Lemma zl_some k : k < n -> lane w v k = 0 -> (forall j, j < k -> lane w v j <> 0) ->
+    zero_lane_off v mask w = w * k.
+  Proof.
+    intros Hk Hz Hnz. unfold zero_lane_off. fold X. fold R.
+    apply trailing_zeros_unique.
+    - rewrite zl_R_marker, Hz by assumption. reflexivity.
+    - intros i Hi. destruct (N.eq_dec (i mod w) 0) as [Hm|Hm].
+      + assert (Hj : i / w < k).
+        { apply N.div_lt_upper_bound; [lia|exact Hi]. }
+        rewrite (zl_aligned i Hm), zl_R_marker.
+        * apply N.eqb_neq. apply Hnz. exact Hj.
+        * lia.
+        * intros j' Hj'. apply Hnz. lia.
+      + apply zl_R_other. left. exact Hm.
+  Qed.
+
+  Lemma zl_none : (forall j, j < n -> lane w v j <> 0) -> zero_lane_off v mask w = 64.
+  Proof.
+    intros Hnz. unfold zero_lane_off. fold X. fold R.
+    assert (E : R = 0).
+    { apply N.bits_inj. intros i. rewrite N.bits_0.
+      destruct (N.lt_ge_cases i 64) as [Hi|Hi]; [|apply zl_R_other; right; exact Hi].
+      destruct (N.eq_dec (i mod w) 0) as [Hm|Hm]; [|apply zl_R_other; left; exact Hm].
+      pose proof (zl_idx i Hi) as Hj.
+      rewrite (zl_aligned i Hm), zl_R_marker.
+      - apply N.eqb_neq. apply Hnz. exact Hj.
+      - exact Hj.
+      - intros j' Hj'. apply Hnz. lia. }
+    rewrite E. reflexivity.
+  Qed.
+
+  Lemma zl_block_free j : block_free v o (w * j) = (lane w v j =? 0).
+  Proof. rewrite block_free_lane, Hwo. reflexivity. Qed.
+
+  Lemma zero_lane_correct :
+    (let off := zero_lane_off v mask w in
+     if off <? 64 then Some (N.lor v (N.shiftl (N.ones w) off), off) else None) = row_spec v o.
+  Proof.
+    cbv zeta. destruct (row_spec v o) as [[v' p]|] eqn:E.
+    - destruct (row_spec_some _ _ _ _ Ho E) as (Ha & Hb & Hf & -> & Hl).
+      rewrite Hwo in *.
+      pose proof (zl_aligned p Ha) as Ep. set (k := p / w) in *.
+      assert (Hk : k < n).
+      { destruct (N.lt_ge_cases k n) as [|Hge]; [assumption|].
+        apply (N.mul_le_mono_l _ _ w) in Hge. lia. }
+      assert (Eo : zero_lane_off v mask w = p).
+      { rewrite Ep. apply zl_some.
+        - exact Hk.
+        - apply N.eqb_eq. rewrite <- zl_block_free, <- Ep. exact Hf.
+        - intros j Hj. apply N.eqb_neq. rewrite <- zl_block_free. apply Hl.
+          + rewrite N.mul_comm. apply N.mod_mul. lia.
+          + rewrite Ep. apply N.mul_lt_mono_pos_l; assumption. }
+      rewrite Eo. destruct (N.ltb_spec p 64); [|lia].
+      unfold block_mask, ones. rewrite Hwo. reflexivity.
+    - pose proof (row_spec_none _ _ Ho E) as Hn. rewrite Hwo in Hn.
+      rewrite zl_none; [reflexivity|].
+      intros j Hj. apply N.eqb_neq. rewrite <- zl_block_free. apply Hn.
+      + rewrite N.mul_comm. apply N.mod_mul. lia.
+      + apply zl_pos. exact Hj.
+  Qed.
+End ZeroLane.
+
+Lemma fza_correct_2 v : v < W64 -> fza v 2 = row_spec v 2.
+Proof.
+  intros Hv. unfold fza.
+  apply (zero_lane_correct 4 16 0x1111111111111111 2); try reflexivity; try lia; try assumption.
+  - apply (check_below_bool 64 (N.testbit 0x1111111111111111) (fun i => i mod 4 =? 0)).
+    vm_compute; reflexivity.
+  - apply (check_below_N 16 (lane 4 0x1111111111111111) (fun _ => 1)).
+    vm_compute; reflexivity.
+Qed.
+
+Lemma fza_correct_3 v : v < W64 -> fza v 3 = row_spec v 3.
+Proof.
+  intros Hv. unfold fza.
+  apply (zero_lane_correct 8 8 0x0101010101010101 3); try reflexivity; try lia; try assumption.
+  - apply (check_below_bool 64 (N.testbit 0x0101010101010101) (fun i => i mod 8 =? 0)).
+    vm_compute; reflexivity.
+  - apply (check_below_N 8 (lane 8 0x0101010101010101) (fun _ => 1)).
+    vm_compute; reflexivity.
+Qed.
+
+Lemma fza_correct_4 v : v < W64 -> fza v 4 = row_spec v 4.
+Proof.
+  intros Hv. unfold fza.
+  apply (zero_lane_correct 16 4 0x0001000100010001 4); try reflexivity; try lia; try assumption.
+  - apply (check_below_bool 64 (N.testbit 0x0001000100010001) (fun i => i mod 16 =? 0)).
+    vm_compute; reflexivity.
+  - apply (check_below_N 4 (lane 16 0x0001000100010001) (fun _ => 1)).
+    vm_compute; reflexivity.
+Qed.
+
+(* ---------- orders 5, 6 ---------- *)
+Lemma fza_correct_5 v : v < W64 -> fza v 5 = row_spec v 5.
+Proof.
+  intros Hv. unfold fza, row_spec. cbv zeta.
+  change (candidates 5) with [0; 32]. cbn [find].
+  assert (E0 : block_free v 5 0 = (N.land v 0xffffffff =? 0)) by reflexivity.
+  assert (E1 : block_free v 5 32 = (N.shiftr v 32 =? 0)).
+  { rewrite block_free_lane, N.shiftr_div_pow2. change (2 ^ N.of_nat 5) with 32.
+    rewrite N.mod_small; [reflexivity|].
+    apply N.div_lt_upper_bound; [discriminate|exact Hv]. }
+  rewrite E0, E1.
+  destruct (N.land v 0xffffffff =? 0); [reflexivity|].
+  destruct (N.shiftr v 32 =? 0); reflexivity.
+Qed.
+
+Lemma fza_correct_6 v : v < W64 -> fza v 6 = row_spec v 6.
+Proof.
+  intros Hv. unfold fza, row_spec.
+  change (candidates 6) with [0]. cbn [find].
+  assert (E0 : block_free v 6 0 = (v =? 0)).
+  { unfold block_free. change (block_mask 6 0) with (N.ones 64).
+    rewrite N.land_ones, N.mod_small by exact Hv. reflexivity. }
+  rewrite E0. destruct (N.eqb_spec v 0) as [->|]; reflexivity.
+Qed.
+
+(* ---------- the main theorem ---------- *)
+Theorem fza_correct : forall v o, v < W64 -> (o <= 6)%nat -> fza v o = row_spec v o.
+Proof.
+  intros v o Hv Ho.
+  destruct o as [|o]; [apply fza_correct_0; exact Hv|].
+  destruct o as [|o]; [apply fza_correct_1; exact Hv|].
+  destruct o as [|o]; [apply fza_correct_2; exact Hv|].
+  destruct o as [|o]; [apply fza_correct_3; exact Hv|].
+  destruct o as [|o]; [apply fza_correct_4; exact Hv|].
+  destruct o as [|o]; [apply fza_correct_5; exact Hv|].
+  destruct o as [|o]; [apply fza_correct_6; exact Hv|].
+  lia.
+Qed.
+
+(* ---------- consequences for the result of fza ---------- *)
+Lemma fza_some : forall v o v' p, v < W64 -> (o <= 6)%nat -> fza v o = Some (v', p) ->
+  p mod 2 ^ N.of_nat o = 0 /\ p + 2 ^ N.of_nat o <= 64 /\ block_free v o p = true /\
+  v' = N.lor v (block_mask o p) /\
+  (forall q, q mod 2 ^ N.of_nat o = 0 -> q < p -> block_free v o q = false).
+Proof.
+  intros v o v' p Hv Ho H. rewrite fza_correct in H by assumption.
+  apply row_spec_some; assumption.
+Qed.
+
+Lemma fza_none : forall v o, v < W64 -> (o <= 6)%nat -> fza v o = None ->
+  forall q, q mod 2 ^ N.of_nat o = 0 -> q + 2 ^ N.of_nat o <= 64 -> block_free v o q = false.
+Proof.
+  intros v o Hv Ho H. rewrite fza_correct in H by assumption.
+  apply row_spec_none; assumption.
+Qed.
+
+Lemma block_mask_lt o p : p + 2 ^ N.of_nat o <= 64 -> block_mask o p < W64.
+Proof.
+  intros H. rewrite W64_pow. apply lt_pow2_bits. intros i Hi.
+  rewrite testbit_block_mask. destruct (N.ltb_spec i (p + 2 ^ N.of_nat o)); [lia|].
+  apply andb_false_r.
+Qed.
+
+Lemma fza_lt : forall v o v' p, v < W64 -> (o <= 6)%nat -> fza v o = Some (v', p) -> v' < W64.
+Proof.
+  intros v o v' p Hv Ho H.
+  destruct (fza_some _ _ _ _ Hv Ho H) as (_ & Hb & _ & -> & _).
+  rewrite W64_pow. apply lor_lt_pow2; [exact Hv|]. apply block_mask_lt. exact Hb.
+Qed.
+
+Lemma fza_testbit : forall v o v' p i, v < W64 -> (o <= 6)%nat -> fza v o = Some (v', p) ->
+  N.testbit v' i = (N.testbit v i || ((p <=? i) && (i <? p + 2 ^ N.of_nat o))).
+Proof.
+  intros v o v' p i Hv Ho H.
+  destruct (fza_some _ _ _ _ Hv Ho H) as (_ & _ & _ & -> & _).
+  rewrite N.lor_spec, testbit_block_mask. reflexivity.
+Qed.
+
+Lemma popcount_block_mask o p : popcount (block_mask o p) = 2 ^ N.of_nat o.
+Proof. unfold block_mask, ones. rewrite popcount_shiftl. apply popcount_ones. Qed.
+
+Lemma fza_popcount : forall v o v' p, v < W64 -> (o <= 6)%nat -> fza v o = Some (v', p) ->
+  popcount v' = popcount v + 2 ^ N.of_nat o.
+Proof.
+  intros v o v' p Hv Ho H.
+  destruct (fza_some _ _ _ _ Hv Ho H) as (_ & _ & Hf & -> & _).
+  unfold block_free in Hf. apply N.eqb_eq in Hf.
+  rewrite popcount_lor_disjoint by exact Hf. rewrite popcount_block_mask. reflexivity.
+Qed.
+
+Print Assumptions fza_correct.
+Print Assumptions row_spec_some.
+Print Assumptions row_spec_none.
+Print Assumptions block_free_spec.
+Print Assumptions fza_lt.
+Print Assumptions fza_testbit.
+Print Assumptions fza_popcount.
